@@ -133,7 +133,7 @@ func runC15(r *ev.Run, thorough bool) {
 	if thorough {
 		maxValid, maxTrunc, depth = 40, 30, 2
 	}
-	r.Rule = fmt.Sprintf("per type: events = up to %d valid wires (bases Z, D and every structural deviation: list lengths 0..3/255..257, every registered key, text lengths) + up to %d failing truncations at field boundaries; ALL event sequences of length <= %d decoded into ONE receiver starting from {fresh, hand-dirtied with the long variant, hand-dirtied with a body of another registered type}, then every valid wire decoded into that receiver and into a fresh one; oracle: equal results; states = distinct receiver contents reached, transitions = decode events applied; distinct = (type,start,event sequence,final)", maxValid, maxTrunc, depth)
+	r.Rule = fmt.Sprintf("per type: events = up to %d valid wires (bases Z, D and every structural deviation: list lengths 0..3/255..257, every registered key, text lengths) + up to %d failing truncations at field boundaries; ALL event sequences of length <= %d decoded into ONE receiver starting from {fresh, hand-dirtied with the long variant, hand-dirtied with bodies of other registered types, key field naming one type while holding a body of another}, then every valid wire decoded into that receiver and into a fresh one; oracle: equal results; states = distinct receiver contents reached, transitions = decode events applied; distinct = (type,start,event sequence,final)", maxValid, maxTrunc, depth)
 	parTypes(r, bind.Types, func(t *rm.Type, l *ev.Local) {
 		valid, trunc := c15Events(t, maxValid, maxTrunc)
 		events := append(append([][]byte{}, valid...), trunc...)
@@ -143,6 +143,13 @@ func runC15(r *ev.Run, thorough bool) {
 			starts = append(starts, valenum.WithKey(t, tab.Order[0], "L"))
 			if len(tab.Order) > 1 {
 				starts = append(starts, valenum.WithKey(t, tab.Order[1], "D"))
+				// a receiver whose key field names one registered type while it holds a body of another
+				// (what a failed decode leaves behind: key already overwritten, body still the old one)
+				for _, kk := range [][2]string{{tab.Order[0], tab.Order[len(tab.Order)-1]}, {tab.Order[len(tab.Order)-1], tab.Order[0]}, {tab.Order[1], tab.Order[0]}} {
+					mixed := valenum.WithKey(t, kk[0], "D")
+					mixed.Fields[t.FieldIndex(t.Fields[t.DynField()].Key)] = rm.KeyValue(tab, kk[1])
+					starts = append(starts, mixed)
+				}
 			}
 		}
 		for si, st := range starts {
@@ -165,7 +172,8 @@ func runC15(r *ev.Run, thorough bool) {
 				}
 				evs := events
 				if len(seq) >= 1 && !thorough && len(evs) > 10 {
-					evs = evs[:10]
+					// second level in quick: a mix of valid wires and failing truncations
+					evs = append(append([][]byte{}, valid[:min(5, len(valid))]...), trunc[:min(5, len(trunc))]...)
 				}
 				for _, e := range evs {
 					seq = append(seq, e)
